@@ -545,9 +545,13 @@ def gen_op_case(r, depth, strs=STRS_SAFE, welltyped_only=True, kinds=None):
         t = gen_type(r, depth, ("int", "float", "str", "tuple"))
         a, b = gen_pair(r, t, strs)
         return OpCase("op2", "add", [(a, t), (b, t)], "add-str" if has_str(t) else "arith")
-    if x < 0.94:
+    if x < 0.92:
         t = gen_type(r, depth, ("int", "float", "tuple"))
         return OpCase("op1", "neg", [(gen_value(r, t, strs), t)], "neg")
+    if x < 0.95:
+        # the checker admits < and > between an int and a float
+        ta, tb = r.choice([(INT, FLOAT), (FLOAT, INT)])
+        return OpCase("op2", r.choice(["lt", "gt"]), [(gen_value(r, ta, strs), ta), (gen_value(r, tb, strs), tb)], "cmp-mixed")
     t = gen_type(r, depth, all_kinds)
     return OpCase("op1", "tostring", [(gen_value(r, t, strs), t)], "tostring")
 
